@@ -8,6 +8,7 @@ import PtModel.Lower
 import PtModel.Spec
 import PtModel.Affine
 import PtModel.Names
+import PtModel.Shape
 import PtModel.HandleKernel
 import PtModel.HandleDist
 import PtModel.HandleEq
@@ -143,6 +144,12 @@ def handle (q : Sx) : String :=
        let s := ptNormSlice st sp step n
        s!"ok {s.start} {s.stop} {s.step} {ptSliceLen s}"
      | _, _, _, _ => "err:parse")
+  | .list (.atom "bcast" :: shapes) =>
+    (match shapes.mapM Sx.asNats? with
+     | some ss => (match ptBroadcast ss with
+       | some r => "ok " ++ showNats r
+       | none => "ok none")
+     | none => "err:parse")
   | .list [.atom "resynth", a, b, c, n] =>
     (match a.asInt?, b.asInt?, c.asInt?, n.asInt? with
      | some st, some sp, some step, some n =>
